@@ -2,7 +2,8 @@
 NAMES = ["Host", "User-Agent", "Accept", "Accept-Encoding", "Accept-Language", "Connection", "Keep-Alive", "Server", "Date",
          "Content-Type", "Content-Length", "Via", "X-Tag", "Cookie"]
 VALUES = ["example.com", "Mozilla/5.0 (X11; Linux) Firefox/10.0", "curl/7.81", "*/*", "gzip, deflate", "keep-alive", "close", "", "x", "a:b",
-          "text/html", "0", "Apache/2.2", "nginx/1.2", "en-US,en;q=0.5", "MSIE 8.0", " padded ", "a  b"]
+          "text/html", "0", "Apache/2.2", "nginx/1.2", "en-US,en;q=0.5", "MSIE 8.0", " padded ", "a  b",
+          "text/html ;q=0.9", "Mozilla/5.0 (KHTML, like Gecko) HeadlessChrome/41", "Mozilla/5.0 (KHTML, like Gecko) Chrome/41 Safari", "x ;y"]
 
 
 def case_variant(R, name):
@@ -88,7 +89,7 @@ def rand_http_sig(R, headers=None):
     present = {h[0].lower() for h in headers} if headers else set()
     cand = [n for n in NAMES if n.lower() not in present] if R.random() < 0.8 else NAMES
     absent = ",".join(case_variant(R, x) for x in R.sample(cand, min(len(cand), R.choice([0, 0, 1, 2]))))
-    sw = R.choice(["", "", "Firefox/", "curl", "Apache", "MSIE", "nginx"])
+    sw = R.choice(["", "", "Firefox/", "curl", "Apache", "MSIE", "nginx", " Chrom", " Chrom", "Chrom", " Safari", "E 8", " ;y"])
     return ":".join([ver, ",".join(items), absent, sw])
 
 
